@@ -1,4 +1,5 @@
 import CasbinVerif.Proofs.C10Step
+import CasbinVerif.Proofs.Updatable
 /-
   C10: the management calls one by one.
 -/
@@ -213,25 +214,28 @@ theorem c10_updatePoliciesWN (e : Enf) (sec pt : String) (olds news : List Rule)
     simp only [Enf.opWF10, Bool.and_eq_true] at hop
     exact hop.1
   obtain ⟨n, s, har, hs, hwf6⟩ := opWF_elim hop' rfl
-  have hall : olds.all (fun r => decide (r ∈ s.policy)) = true := by
-    simp only [Enf.opWF10, Bool.and_eq_true, hs] at hop
-    have := hop.2
-    simp only [List.all_eq_true, List.contains_eq_mem, decide_eq_true_eq] at this ⊢
-    exact this
   obtain ⟨hpl, hn⟩ := wf06_parts hwf6
   have hpo : ∀ r ∈ olds, plainRule n r = true := fun r hr => hpl r (by simp [StoreOp.rules, hr])
   have hpn : ∀ r ∈ news, plainRule n r = true := fun r hr => hpl r (by simp [StoreOp.rules, hr])
   obtain ⟨hlen, hod, hnd, hnew⟩ := wf06_updateMany hwf6
   have g0 := good_of hi.wf har hs
   obtain ⟨g1, hspec⟩ := updateMany_spec hn g0 olds news hlen hpo hpn hod hnd hnew
-  simp only [SpecStore.apply, hall, if_true] at hspec
   unfold Enf.updatePoliciesWN
   split
   · exact hi
   split
   · exact hi
+  rename_i sg hsg
+  rw [hs] at hsg; cases hsg
   split
-  · exact hi
+  · exact hi          -- refused by `updatable`: the adapter is not touched, the state is unchanged
+  rename_i hupdatable
+  -- the guard has let the batch through: every old rule is held, hence listed
+  have hgd : Enf.updatable s olds news = true := by simpa using hupdatable
+  have hall : olds.all (fun r => decide (r ∈ s.policy)) = true := by
+    simp only [List.all_eq_true, decide_eq_true_eq]
+    exact fun o ho => (g0.has_iff hn (hpo o ho)).1 (Enf.updatable_olds_has hgd hlen o ho)
+  simp only [SpecStore.apply, hall, if_true] at hspec
   split
   rename_i e1 okA hp
   have sc := sameCore_persist hp
